@@ -7,6 +7,8 @@ Author: G.J.J. van den Burg
 License: Apache-2.0
 """
 
+import math
+
 from . import vpsc
 
 DEFAULT_OPTIONS = {
@@ -21,8 +23,8 @@ def last(arr):
     return arr[-1]
 
 
-def nodeToVariable(node):
-    v = vpsc.Variable(node.targetPos)
+def nodeToVariable(node, origin=0):
+    v = vpsc.Variable(node.targetPos - origin)
     v.node = node
     return v
 
@@ -44,7 +46,12 @@ def removeOverlap(nodes, options):
 
     nodes.sort(key=lambda x: x.targetPos)
 
-    variables = [nodeToVariable(n) for n in nodes]
+    # Solve in coordinates relative to the first target. With positions of
+    # the order of 1e9 the products of the wall weight (1e10) and the
+    # coordinates leave no float precision for the solver's tolerances and
+    # it never settles. An integer origin keeps the translation exact.
+    origin = math.floor(nodes[0].targetPos)
+    variables = [nodeToVariable(n, origin) for n in nodes]
 
     constraints = []
     for i in range(1, len(variables)):
@@ -59,13 +66,13 @@ def removeOverlap(nodes, options):
         constraints.append(vpsc.Constraint(v1, v2, gap))
 
     if ("minPos" in options) and (not options["minPos"] is None):
-        leftWall = vpsc.Variable(options["minPos"], 1e10)
+        leftWall = vpsc.Variable(options["minPos"] - origin, 1e10)
         v = variables[0]
         constraints.append(vpsc.Constraint(leftWall, v, v.node.width / 2))
         variables = [leftWall] + variables
 
     if ("maxPos" in options) and (not options["maxPos"] is None):
-        rightWall = vpsc.Variable(options["maxPos"], 1e10)
+        rightWall = vpsc.Variable(options["maxPos"] - origin, 1e10)
         lastv = last(variables)
         constraints.append(
             vpsc.Constraint(lastv, rightWall, lastv.node.width / 2)
@@ -77,6 +84,6 @@ def removeOverlap(nodes, options):
 
     variables = [v for v in variables if v.node]
     for v in variables:
-        v.node.currentPos = round(v.position())
+        v.node.currentPos = round(v.position() + origin)
 
     return nodes
